@@ -6,6 +6,9 @@
 (*   client[f] : the client's view (last publishDiagnostics) of file f     *)
 (*   fresh[f]  : the view a fresh real server gives for the current disk   *)
 (*   syn[f]    : the syntax diagnostics of the current buffer of f         *)
+(*   q, qclient[f], qfresh[f] : (on the last line of a run) the digests of  *)
+(*               the answers to the query bundle, by this server and by a  *)
+(*               fresh one                                                 *)
 (* each a sequence of records [t |-> type, k |-> key].  The events are     *)
 (* replayed through the actions of LspWorkspace.tla; after every step the  *)
 (* two obligations of C08 are evaluated and the lines that break one are   *)
@@ -66,11 +69,19 @@ DirtyBroken ==
                want == IF syn # {} THEN syn ELSE {d \in SetOf(Cur.fresh[f]) : d.t # 1}
            IN SetOf(Cur.client[f]) # want}
 
+\* "... and the answers to queries are the same as those of a server freshly started": on the lines that carry the
+\* answers to the query bundle (q), filed per file, and only when no buffer has unsaved edits
+\* (when two files define the same global, which definition the answers use depends on map iteration order -- known
+\* finding Dev_TieBrokenByMapOrder of C09 -- so two server instances need not agree: not compared then)
+OneDefiner == Cardinality({f \in Files : disk[f] = "defg"}) <= 1
+QueryBroken ==
+    IF Quiescent /\ Cur.q /\ OneDefiner THEN {f \in Files : SetOf(Cur.qclient[f]) # SetOf(Cur.qfresh[f])} ELSE {}
+
 Report ==
     IF l = 1 THEN TRUE
-    ELSE IF FreshBroken = {} /\ DirtyBroken = {} THEN TRUE
+    ELSE IF FreshBroken = {} /\ DirtyBroken = {} /\ QueryBroken = {} THEN TRUE
     ELSE PrintT("@@J " \o ToJson([fam |-> "workspace-trace", line |-> l - 1, run |-> Cur.run, step |-> Cur.step,
-                                  fresh |-> FreshBroken, dirty |-> DirtyBroken]))
+                                  fresh |-> FreshBroken, dirty |-> DirtyBroken, query |-> QueryBroken]))
 
 \* the whole file was consumed: one state per line plus the initial one
 Consumed == l = Len(Trace) + 1
